@@ -53,10 +53,12 @@ namespace igris
             bWasSignalled = m_bFlag;
             m_bFlag = true;
             IGRIS_VERIF_POINT("ev_set", this, 0);
-            IGRIS_VERIF_POINT("ev_sunlock", this, 0);
-            m_mutex.unlock();
+            // notify while the mutex is still held: once it is released the
+            // waiter may return from wait() and destroy this event
             IGRIS_VERIF_POINT("ev_notify", this, 0);
             m_condition.notify_all();
+            IGRIS_VERIF_POINT("ev_sunlock", this, 0);
+            m_mutex.unlock();
             return bWasSignalled == false;
         }
 
